@@ -187,6 +187,8 @@ class SpecEval:
             return v.t
         if name in self.consts:
             return z3.IntVal(self.consts[name])
+        if name in self.ghosts.funcs and not self.ghosts.funcs[name][0]:
+            return self.ghost_call(name, [], env)
         if name in ("True", "False"):
             return z3.BoolVal(name == "True")
         raise SpecError("unknown name %s" % name)
